@@ -23,7 +23,7 @@ func init() {
 		Breaker{Name: "run-query-response-through-float64", File: "internal/api/v2/controllers_queries_run.go",
 			Old: "\t\tdec.UseNumber()\n\t\terr = dec.Decode(&fields)", New: "\t\terr = dec.Decode(&fields)", Expect: "NUM/decode-any"},
 		Breaker{Name: "bulk-script-vars-any-without-usenumber", File: "internal/api/bulking/elements.go",
-			Old: "\tAction         string `json:\"action\"`\n\tIdempotencyKey string `json:\"ik\"`\n\tData           any    `json:\"data\"`\n}", New: "\tAction         string `json:\"action\"`\n\tIdempotencyKey string `json:\"ik\"`\n\tData           any    `json:\"data\"`\n\tExtra          map[string]any `json:\"extra\"`\n}", Expect: "NUM/decode-any"},
+			Old: "\tIdempotencyKey string `json:\"ik\"`\n\tData           any    `json:\"data\"`\n", New: "\tIdempotencyKey string `json:\"ik\"`\n\tData           any    `json:\"data\"`\n\tExtra          map[string]any `json:\"extra\"`\n", Expect: "NUM/decode-any"},
 		Breaker{Name: "posting-amount-as-int64", File: "internal/controller/ledger/controller_default.go",
 			Old: "if finalBalance.Cmp(new(big.Int)) < 0 && account != \"world\" {", New: "if finalBalance.Int64() < 0 && account != \"world\" {", Expect: "NUM/narrowing"},
 		Breaker{Name: "volumes-column-bigint", File: "internal/storage/bucket/migrations/11-make-stateless/up.sql",
